@@ -467,6 +467,11 @@ def gen_rel(rng, kind=None, depth=0, counter=None):
     if kind == 'join':
         on = rng.choice([['k1'], ['k1'], ['k1', 'k2']])
         ids_l, ids_r = gen_ids(rng, 1)[0], list(dict.fromkeys(gen_ids(rng, 1)[0] + gen_ids(rng, 1)[0]))
+        if rng.random() < 0.12:
+            # an entry listed twice in the ids of a side: two rows with the same key tuple
+            side = ids_l if rng.random() < 0.5 else ids_r
+            if side:
+                side.insert(rng.randrange(len(side) + 1), rng.choice(side))
         left = gen_source(rng, counter[0], ids_l, ['x'] if rng.random() < 0.7 else ['x', 'y'])
         counter[0] += 1
         right = gen_source(rng, counter[0], ids_r, ['z'])
